@@ -1,0 +1,38 @@
+//go:build verif
+
+package core
+
+// Contracts for the on-disk transition guards (properties C01, C03).
+// Comment-only file: compiled only under the "verif" build tag, contains no
+// code. The "//@" lines are read by /verif/govc.
+
+// C01, just-in-time check: a file is accepted as "still the expected one"
+// only if the scan cache knows the path and the cached digest is the digest
+// of the entry the change expects to replace; removal happens only after the
+// check succeeded.
+//@ func (*transitioner).ensureExpectedFile
+//@   requires t != nil && t.cache != nil && expected != nil && parent != nil
+//@   ensures[jit] result == nil ==> old(has(t.cache.Entries, path))
+//@   ensures[jit] result == nil ==> len(old(t.cache.Entries[path]).Digest) == len(expected.Digest)
+//@   ensures[jit] result == nil ==> forall i in 0..len(expected.Digest) :: old(t.cache.Entries[path]).Digest[i] == expected.Digest[i]
+
+//@ func (*transitioner).removeFile
+//@   requires t != nil && t.cache != nil && expected != nil && parent != nil
+//@   at call RemoveFile assert[jit] err == nil && arg0 == parent && arg1 == name
+//@   at call ensureExpectedFile assert[jit] arg1 == parent && arg2 == name && arg3 == path && arg4 == expected
+
+//@ func (*transitioner).removeSymbolicLink
+//@   requires t != nil && expected != nil && parent != nil
+//@   at call RemoveSymbolicLink assert[jit] err == nil && t.symbolicLinkMode != SymbolicLinkMode_SymbolicLinkModeIgnore && arg0 == parent && arg1 == name
+//@   at call ensureExpectedSymbolicLink assert[jit] arg1 == parent && arg2 == name && arg3 == path && arg4 == expected
+
+// C03, directory removal: content found on disk that the expected entry does
+// not list is never handed to a removal function, and a directory in which
+// such content was met (or whose content could not be removed) is not removed.
+//@ func (*transitioner).removeDirectory
+//@   requires t != nil && expected != nil && parent != nil
+//@   at call RemoveDirectory assert[known] !unknownContentEncountered && !contentRemovalFailed && !cancelled && arg0 == parent && arg1 == name
+//@   at call (*transitioner).removeDirectory assert[known] ok && entry.Kind == EntryKind_Directory && arg1 == directory && arg2 == contentName
+//@   at call (*transitioner).removeFile assert[known] ok && entry.Kind == EntryKind_File && arg1 == directory && arg2 == contentName
+//@   at call (*transitioner).removeSymbolicLink assert[known] ok && entry.Kind == EntryKind_SymbolicLink && arg1 == directory && arg2 == contentName
+//@   at call recordProblem assert[known] arg1 == path || unknownContentEncountered || contentRemovalFailed
